@@ -120,7 +120,7 @@ def execute(args):
             x.meta_before = {r: cli.snapshot(r) for r in (proj, tmpdir, os.path.join(work, "cwd"), os.path.join(work, "outside"))}
         r = cli.run_breadlog(os.path.join(proj, "Breadlog.yaml"), check=sc.check, cwd=os.path.join(work, "cwd"),
                              tmpdir=tmpdir, timeout=opt.get("timeout", 30),
-                             shim={"log": os.path.join(work, "fsx.log"), "roots": roots, "plan": plan_str(plan)})
+                             shim={"log": os.path.join(work, "fsx.log"), "roots": roots, "plan": plan_str(plan), "sticky_prefix": tmpdir})
         x.exit, x.signal, x.timed_out = r.exit, r.signal, r.timed_out
         x.stdout, x.stderr = r.stdout, r.stderr
         x.trace = r.trace
@@ -203,13 +203,13 @@ class Explorer:
         self.pool.close()
         self.pool.join()
 
-    def baseline(self, sc, opt):
-        a = execute((sc, [], opt))
-        b = execute((sc, [], opt))
+    def baseline(self, sc, opt, base_plan=()):
+        a = execute((sc, list(base_plan), opt))
+        b = execute((sc, list(base_plan), opt))
         self.stats["executions"] += 2
         if norm_trace(a) != norm_trace(b):
             # one more attempt, then machinery error
-            c = execute((sc, [], opt))
+            c = execute((sc, list(base_plan), opt))
             self.stats["determinism_reruns"] += 1
             if norm_trace(c) != norm_trace(a) and norm_trace(c) != norm_trace(b):
                 raise MachineryError("scenario %s: fault-free trace is not deterministic" % sc.name)
@@ -217,22 +217,24 @@ class Explorer:
                 a = b
         return a
 
-    def explore(self, sc, menu, bound, oracle, opt=None, op_filter=None, second_menu=None, cap=None):
+    def explore(self, sc, menu, bound, oracle, opt=None, op_filter=None, second_menu=None, cap=None, base_plan=None):
         """Runs oracle(sc, baseline_exec, exec) on every execution. Returns (baseline, n_exec, capped)."""
         opt = opt or {}
         self.stats["scenarios"] += 1
-        base = self.baseline(sc, opt)
+        base_plan = list(base_plan or [])      # environment conditions (sticky faults) present in every execution, not deviations
+        base = self.baseline(sc, opt, base_plan)
         oracle(sc, base, base)
         self._account(base)
         base_norm = norm_trace(base)
-        level = [([], base)]
+        level = [(list(base_plan), base)]
         n_exec = 0
         capped = False
         for depth in range(1, bound + 1):
             plans = []
             this_menu = menu if depth == 1 or second_menu is None else second_menu
             for plan, x in level:
-                last = plan[-1][0] if plan else -1
+                idx = [k for k, _ in plan if k is not None]
+                last = idx[-1] if idx else -1
                 for o in x.trace:
                     if o.op == "signal" or o.note.startswith("KILLED"):
                         continue
@@ -250,7 +252,7 @@ class Explorer:
                 n_exec += 1
                 self._account(x)
                 # prefix determinism: ops before the first injected index must equal the baseline prefix
-                k0 = x.plan[0][0]
+                k0 = [k for k, _ in x.plan if k is not None][0]
                 if norm_trace_prefix(x, k0) != base_norm[:k0] and depth == 1:
                     x = self._retry(sc, x.plan, opt, base_norm, k0)
                 oracle(sc, base, x)
